@@ -224,6 +224,7 @@ func checkC08(c *Ctx) {
 	c08URL(c)
 	c08Headers(c)
 	c08HeaderState(c)
+	c08ScalarTables(c)
 	c08Bodies(c)
 	c08Carriers(c)
 	r.Rule("R08f", "the TS server converts URL strings to the type the TS client's request interface declares (shared with C07/R07e)", 6)
@@ -717,5 +718,56 @@ func c08HeaderState(c *Ctx) {
 			r.CheckD(bad == "", "R08m", "TS server validateHeaders: an absent header is skipped, required or not", c.P.Pos(c.P.Decls[ri.Fn].Pos()),
 				"the emitted validateHeaders does not skip an absent header unconditionally ("+bad+"): an OPTIONAL header the caller omits is validated as the empty string, which every typed or formatted header rejects — the TS server answers 400 to calls the Go server and the OpenAPI contract accept", map[string]any{"variants_with_validateHeaders": n})
 		}
+	}
+}
+
+// c08ScalarTables — R08n / R08o. R08n: tscommon.TSScalarType, which both TS plugins use to declare a scalar field and the TS
+// server uses to convert URL strings, is interpreted on every scalar kind: 32-bit integers and floats are numbers, 64-bit
+// integers strings (proto3 JSON), bool boolean, string/bytes/enum strings — the form the Go client and server put on the
+// wire. R08o: the Go server's URL conversion table pairs every kind with the parser of that kind (shared with C01/R01f): the
+// TS client sends a uint64 as its full decimal text.
+func c08ScalarTables(c *Ctx) {
+	r := c.R
+	r.Rule("R08n", "tscommon.TSScalarType maps every scalar kind to the TypeScript type of its wire form (32-bit and floating kinds number, 64-bit kinds string, bool boolean)", 15)
+	if fn := c.P.Func("internal/tscommon", "TSScalarType"); fn == nil {
+		r.Unres("R08n", "tscommon.TSScalarType", "", "not found")
+	} else {
+		pos := c.P.Pos(c.P.Decls[fn].Pos())
+		prev := c.W.Concrete
+		c.W.Concrete = true
+		pname := ""
+		for _, f := range c.P.Decls[fn].Type.Params.List {
+			for _, n := range f.Names {
+				pname = n.Name
+			}
+		}
+		want := map[string]string{"bool": "boolean", "string": "string", "bytes": "string", "enum": "string",
+			"int32": "number", "sint32": "number", "sfixed32": "number", "uint32": "number", "fixed32": "number", "float": "number", "double": "number",
+			"int64": "string", "sint64": "string", "sfixed64": "string", "uint64": "string", "fixed64": "string"}
+		for _, kind := range sortedKeys(want) {
+			run := c.W.NewRun(map[string]int{}, false)
+			run.InlineAll, run.FollowSlices = true, true
+			run.CallHook = c.cdescHook
+			run.StartArgs(fn, map[string]Val{pname: VInt{N: kindNum[kind], Label: kindLabel[kind]}})
+			key := "TSScalarType(" + kind + ")"
+			sv, ok := run.Result.(VStr)
+			got, isConst := "", false
+			if ok {
+				got, isConst = sv.isConst()
+			}
+			if !ok || !isConst || len(run.Used) > 0 {
+				r.Undec("R08n", key, pos, fmt.Sprintf("not evaluated to a constant (result %T, open decisions %v)", run.Result, usedKeys(run)))
+				continue
+			}
+			r.Check(got == want[kind], "R08n", key, pos,
+				fmt.Sprintf("TSScalarType gives %q for kind %s; the wire form is a JSON %s: the TS server then hands URL values of such fields to the handler unconverted (or converts what is a string), and both TS plugins declare the field with the wrong type", got, kind, want[kind]))
+		}
+		c.W.Concrete = prev
+	}
+	r.Rule("R08o", "the Go server converts each URL-bound kind with the parser, bit size and constructor of that kind (shared with C01/R01f): a value every client sends as decimal text is accepted over its whole range", 8)
+	if ep, err := c.ServerRuntime(); err != nil {
+		r.Unres("R08o", "emitted server runtime", "", err.Error())
+	} else {
+		checkConversionTable(c, ep, "R08o")
 	}
 }
